@@ -235,22 +235,33 @@ def r5(ctx):
         seen.add((fn.name, fn.sig))
         adds = [c for c in fn.all('CXXMemberCallExpr') if (fn.nodes[c].get('callee') or '').endswith('MessageMap::addPollMessage')]
         sets = [c for c in fn.all('CXXMemberCallExpr') if (fn.nodes[c].get('callee') or '').endswith('Message::setPollPriority')]
+        # a local that holds the result of a setPollPriority call stands for that call
+        flag = {}
+        for nid, d, rhs, op, lhs in fn.assignments():
+            if d and ':' in d and rhs is not None and fn.strip(rhs, casts=True) in sets:
+                defs = [1 for _, d2, _, _, _ in fn.assignments() if d2 == d]
+                if len(defs) == 1:
+                    flag[d.split(':')[-1]] = fn.strip(rhs, casts=True)
         for c in adds:
             n += 1
             ctx.touch(fn)
             m = fn.key(fn.nodes[c]['args'][1])
-            ok = any(k.startswith('%s.setPollPriority(' % m) and p for k, p in ((a[0], a[1]) for a in fn.atoms(c)))
+            ok = any((k.startswith('%s.setPollPriority(' % m) or (k in flag and fn.key(fn.nodes[flag[k]]['obj']) == m)) and p
+                     for k, p in ((a[0], a[1]) for a in fn.atoms(c)))
             ctx.ob('C17.R5', fn, c, ok, 'addPollMessage(%s)' % m, 'reached only after %s.setPollPriority() returned true: %s' % (m, ok))
         for c in sets:
             n += 1
             ctx.touch(fn)
             par = fn.nodes.get(fn.parent(c), {})
-            if par.get('k') in ('CompoundStmt', 'IfStmt', 'ForStmt', 'WhileStmt', 'CXXForRangeStmt') and par.get('cond') != c:
+            if par.get('k') in ('CompoundStmt', 'IfStmt', 'ForStmt', 'WhileStmt', 'CXXForRangeStmt') and par.get('cond') != c and c not in flag.values():
                 ctx.ob('C17.R5', fn, c, False, 'result of setPollPriority', 'discarded: a first priority does not queue the message')
                 continue
             m = fn.key(fn.nodes[c]['obj'])
             mine = set(a for a in adds if fn.key(fn.nodes[a]['args'][1]) == m)
             edges = fn.edges_with_atom(fn.key(c), True)
+            for nm, cc in flag.items():
+                if cc == c:
+                    edges = fn.edges_with_atom(nm, True)
             ok = bool(edges) and bool(mine) and all(not fn.reaches_point(fn.blocks[b].succs[j], (fn.exit, 0), mine) or
                                                     _loops_back(fn, fn.blocks[b].succs[j], mine) for b, j in edges)
             ctx.ob('C17.R5', fn, c, ok, 'true result of %s.setPollPriority()' % m, 'leads to addPollMessage on every path: %s' % ok)
